@@ -19,7 +19,7 @@ type c05 struct{}
 func (c05) ID() string    { return "C05" }
 func (c05) Level() string { return "exploration" }
 func (c05) Rule() string {
-	return "target service decomposed into chains of 1..3 bases (4 thorough) x every assignment of link kinds {same file, other file same directory, other file in a sub-directory, other file in a sibling directory} x naming {distinct names, base named like the extending service where files differ} x file references {relative; all absolute} x placement of each of 7 attributes (scalar, KEY=VALUE, plain sequence, wholesale command, build context, env_file, bind volume) on every non-empty subset of chain positions (one attribute varied at a time, and all together); every declaration-order permutation of same-file services and 8 uniform map-iteration rotations; sibling services sharing a base; all cyclic chains of length 1..4 over same/other file; missing base service and missing file. Oracle: flattening reference (most derived wins, keys merge, sequences append base-first, paths anchored on the directory of the file that wrote them), no extends left, errors for cycles/missing. distinct = distinct (chain shape, placement) pairs"
+	return "target service decomposed into chains of 1..3 bases (4 thorough) x every assignment of link kinds {same file, other file same directory, other file in a sub-directory, other file in a sibling directory} x naming {distinct names, base named like the extending service where files differ} x file references {relative; all absolute} x own attributes of the most derived service {plain; tagged !override / !reset} x placement of each of 7 attributes (scalar, KEY=VALUE, plain sequence, wholesale command, build context, env_file, bind volume) on every non-empty subset of chain positions (one attribute varied at a time, and all together); every declaration-order permutation of same-file services and 8 uniform map-iteration rotations; sibling services sharing a base; all cyclic chains of length 1..4 over same/other file; missing base service and missing file. Oracle: flattening reference (most derived wins, keys merge, sequences append base-first, paths anchored on the directory of the file that wrote them), no extends left, errors for cycles/missing. distinct = distinct (chain shape, placement) pairs"
 }
 func (c05) Assumptions() []string {
 	return []string{"reference flattening in props/c05.go follows the override rules of the statement for the 7 attribute kinds used"}
@@ -31,6 +31,7 @@ type c05chain struct {
 	links []int // kind of link i: position i extends position i+1; 0 same file, 1 other file same dir, 2 sub-dir, 3 sibling dir
 	same  bool  // base named like the extending service where the link crosses files
 	abs   bool  // cross-file references written as absolute paths (<ROOT> is replaced once the scenario directory exists)
+	tags  bool  // the most derived service tags two of its own attributes: security_opt !override, hostname !reset
 }
 
 // layout computes, for each chain position, its file (relative to root) and service name.
@@ -92,13 +93,21 @@ func c05build(ch c05chain, carries map[string]uint, perm []int) (*Scn, map[strin
 		}
 		has := func(a string) bool { return carries[a]&(1<<uint(i)) != 0 }
 		if has("hostname") {
-			fmt.Fprintf(&sb, "    hostname: h%d\n", i)
+			if ch.tags && i == 0 {
+				sb.WriteString("    hostname: !reset null\n")
+			} else {
+				fmt.Fprintf(&sb, "    hostname: h%d\n", i)
+			}
 		}
 		if has("environment") {
 			fmt.Fprintf(&sb, "    environment: {K%d: v%d, SHARED: s%d}\n", i, i, i)
 		}
 		if has("security_opt") {
-			fmt.Fprintf(&sb, "    security_opt: [opt%d]\n", i)
+			if ch.tags && i == 0 {
+				fmt.Fprintf(&sb, "    security_opt: !override [opt%d]\n", i)
+			} else {
+				fmt.Fprintf(&sb, "    security_opt: [opt%d]\n", i)
+			}
 		}
 		if has("command") {
 			fmt.Fprintf(&sb, "    command: [cmd%d]\n", i)
@@ -175,6 +184,15 @@ func c05expectAt(ch c05chain, carries map[string]uint, root string, from int) c0
 		}
 		if has("logging.options", i) {
 			e.logopts[fmt.Sprintf("k%d", i)] = fmt.Sprintf("v%d", i)
+		}
+	}
+	if ch.tags && from == 0 {
+		// own attributes are applied by the override rules: !override replaces what the bases gave, !reset removes it
+		if has("security_opt", 0) {
+			e.secopt = []string{"opt0"}
+		}
+		if has("hostname", 0) {
+			e.hostname = ""
 		}
 	}
 	return e
@@ -354,6 +372,32 @@ func (c05) Run(c *core.Ctx) {
 				allC := map[string]uint{}
 				for _, a := range c05attrs {
 					allC[a] = full
+				}
+				{
+					// the most derived service replaces (!override) and removes (!reset) what its bases gave
+					chT := ch
+					chT.tags = true
+					id := fmt.Sprintf("chain-tags/%v/same%v", links, same)
+					c.Do(id, func() core.Outcome {
+						s, _ := c05build(chT, allC, nil)
+						root := s.Materialise()
+						p, err := s.LoadAt(root)
+						sample := map[string]any{"chain": id, "files": s.Files}
+						if err != nil {
+							if pe, ok := err.(*core.PanicError); ok {
+								return core.Outcome{Class: "panic", Sample: sample, Viol: &core.Violation{Key: "panic@" + pe.Site, Msg: id + ": " + pe.Error(), Detail: pe.Stack}}
+							}
+							return core.Outcome{Class: "err", Sample: sample, Viol: &core.Violation{Key: "chain-rejected:tagged-attributes", Msg: id + ": " + err.Error()}}
+						}
+						if msg := c05compareAll(p, chT, allC, root); msg != "" {
+							cross := "samefile"
+							if crosses {
+								cross = "crossfile"
+							}
+							return core.Outcome{Class: "diff", Sample: sample, Viol: &core.Violation{Key: "wrong-flattening:tagged:" + attrKeyOf(msg) + ":" + cross, Msg: id + ": " + msg}}
+						}
+						return core.Outcome{Class: id, Sample: sample}
+					})
 				}
 				if crosses {
 					// the same chain with every cross-file reference spelled as an absolute path
